@@ -338,8 +338,10 @@ func init() {
 			{Name: "SORTED-PRE", What: "every application of a merge strategy is to a chunk list sorted by begin offset", Floor: 5, Run: ruleSortedPre},
 			{Name: "PANIC-REACH", What: "no explicit panic in Add/Chunks outside the reviewed table", Floor: 15, Run: rulePanicReach},
 			{Name: "PRUNE-ROLE", What: "Chunks prunes a candidate chunk only by comparing its End with the reference offset of its own tile (BAI) / its own bin (CSI), keeping End > offset", Floor: 2, Run: rulePruneRole},
+			{Name: "MERGE-STEP", What: "the merge step every Chunks result passes through (Adjacent) and those MergeChunks applies keep the left Begin and the larger End and remove exactly the left element (shared with C17; added after a blind second seed round)", Floor: 8, Run: ruleChunkMergeStep},
+			{Name: "BIN-FIND", What: "Add updates an existing bin only at the position where a scan of the bin list found the record's bin number (no remembered positions that sort() would invalidate; added after a blind second seed round)", Floor: 2, Run: ruleBinFind},
 		},
-		Explanation: "Necessary conditions of completeness that hold by construction: the bin a record is filed under is among the bins enumerated for every overlapping query (BIN-PAIRS, BIN-PAIRS-CSI, ARG-AGREE), tabix maps each name to one id (COUPLED-TABIX), merge strategies only ever see sorted input (SORTED-PRE, the precondition C17 depends on), and adding sorted records cannot reach an explicit panic (PANIC-REACH).",
-		NotDecided:  "the linear-index (16 KiB tile) arithmetic in Add/Chunks and the pruning test – value-level (the defect in it found by reading was repaired, see known_findings.txt).",
+		Explanation: "Necessary conditions of completeness that hold by construction: the bin a record is filed under is among the bins enumerated for every overlapping query (BIN-PAIRS, BIN-PAIRS-CSI, ARG-AGREE), tabix maps each name to one id (COUPLED-TABIX), merge strategies only ever see sorted input (SORTED-PRE) and keep the span of what they merge (MERGE-STEP), pruning looks at the right offsets (PRUNE-ROLE), and adding sorted records cannot reach an explicit panic (PANIC-REACH).",
+		NotDecided:  "the linear-index (16 KiB tile) arithmetic in Add – value-level (the defect in it found by reading was repaired, see known_findings.txt); state kept beside the bins (a lookup cache that sort() would invalidate – second-round seed C04-d, not reported).",
 	})
 }
